@@ -429,7 +429,7 @@ class Describer:
                 if len(eqs) == 1:
                     other = eqs[0][2] if eqs[0][1] == w else eqs[0][1]
                     if other[0] == "k" and isinstance(other[1], bytes):
-                        d["null"] = {"wire": other[1].hex(), "result": "none"}
+                        d["null"] = {"wire": other[1].hex(), "then": "none"}
                         continue
                 return opaque("None returned under an unrecognised condition")
             d["conv"] = subst(val, w, HOLE)
@@ -448,10 +448,10 @@ class Describer:
                 if arm is not None and len(arm) == 1 and n.yes is not None:
                     kind, val = arm[0][1], arm[0][2]
                     if kind == "ret" and val == ("k", None):
-                        d["null"] = {"wire": wire_null, "result": "none"}
+                        d["null"] = {"wire": wire_null, "then": "none"}
                         n = skip_noise(n.no)
                     elif kind == "raise":
-                        d["null"] = {"wire": wire_null, "result": "raise:" + val}
+                        d["null"] = {"wire": wire_null, "then": "raise:" + val}
                         n = skip_noise(n.no)
         if n is None:
             return opaque("no continuation after the null arm")
